@@ -208,3 +208,61 @@ Proof.
   - apply D in H. discriminate H.
   - intros Q. apply D in Q. discriminate Q.
 Qed.
+
+(* ---------- identities and inverses, as representations ---------- *)
+Lemma step_sub : forall a b x y,
+  num_wf a = true -> num_wf b = true -> valQi a = Some x -> valQi b = Some y ->
+  exists r z, num_sub a b = Ok r /\ valQi r = Some z /\ qi_eq z (qi_sub x y) /\ num_wf r = true.
+Proof.
+  intros a b x y Wa Wb Hx Hy.
+  destruct (num_sub_correct a b x y Hx Hy) as (r & z & Hr & Hz & E).
+  exists r, z. split; [exact Hr|]. split; [exact Hz|]. split; [exact E|].
+  exact (proj1 (num_op_normalised a b r (valQi_exact _ _ Hx) (valQi_exact _ _ Hy) Wa Wb
+                 (or_intror (or_introl Hr)))).
+Qed.
+
+Theorem add_zero_structural : forall a, num_is_exact a = true -> num_wf a = true ->
+  num_add a (NInt 0) = Ok a /\ num_add (NInt 0) a = Ok a.
+Proof.
+  intros a Ea Wa. destruct (exact_valQi a Ea) as [x Hx].
+  destruct (step_add a (NInt 0) x (inject_Z 0, 0%Q) Wa eq_refl Hx eq_refl) as (r & z & H & V & Q & W).
+  destruct (step_add (NInt 0) a (inject_Z 0, 0%Q) x eq_refl Wa eq_refl Hx) as (r' & z' & H' & V' & Q' & W').
+  rewrite H, H'. split; f_equal.
+  - apply (exact_normal_form_unique r a z x W Wa V Hx). rewrite Q. destruct x as [x1 x2]. split; cbn; ring.
+  - apply (exact_normal_form_unique r' a z' x W' Wa V' Hx). rewrite Q'. destruct x as [x1 x2]. split; cbn; ring.
+Qed.
+
+Theorem mul_one_structural : forall a, num_is_exact a = true -> num_wf a = true ->
+  num_mul a (NInt 1) = Ok a /\ num_mul (NInt 1) a = Ok a.
+Proof.
+  intros a Ea Wa. destruct (exact_valQi a Ea) as [x Hx].
+  destruct (step_mul a (NInt 1) x (inject_Z 1, 0%Q) Wa eq_refl Hx eq_refl) as (r & z & H & V & Q & W).
+  destruct (step_mul (NInt 1) a (inject_Z 1, 0%Q) x eq_refl Wa eq_refl Hx) as (r' & z' & H' & V' & Q' & W').
+  rewrite H, H'. split; f_equal.
+  - apply (exact_normal_form_unique r a z x W Wa V Hx). rewrite Q. destruct x as [x1 x2]. split; cbn; ring.
+  - apply (exact_normal_form_unique r' a z' x W' Wa V' Hx). rewrite Q'. destruct x as [x1 x2]. split; cbn; ring.
+Qed.
+
+Theorem sub_self_structural : forall a, num_is_exact a = true -> num_wf a = true ->
+  num_sub a a = Ok (NInt 0).
+Proof.
+  intros a Ea Wa. destruct (exact_valQi a Ea) as [x Hx].
+  destruct (step_sub a a x x Wa Wa Hx Hx) as (r & z & H & V & Q & W).
+  rewrite H. f_equal.
+  apply (exact_normal_form_unique r (NInt 0) z (inject_Z 0, 0%Q) W eq_refl V eq_refl).
+  rewrite Q. destruct x as [x1 x2]. split; cbn; ring.
+Qed.
+
+(* (a + b) - b is the object a *)
+Theorem add_sub_cancel_structural : forall a b,
+  num_is_exact a = true -> num_is_exact b = true -> num_wf a = true -> num_wf b = true ->
+  exists ab, num_add a b = Ok ab /\ num_sub ab b = Ok a.
+Proof.
+  intros a b Ea Eb Wa Wb.
+  destruct (exact_valQi a Ea) as [x Hx]. destruct (exact_valQi b Eb) as [y Hy].
+  destruct (step_add a b x y Wa Wb Hx Hy) as (ab & z & H & V & Q & W).
+  destruct (step_sub ab b z y W Wb V Hy) as (r & u & H' & V' & Q' & W').
+  exists ab. split; [exact H|]. rewrite H'. f_equal.
+  apply (exact_normal_form_unique r a u x W' Wa V' Hx).
+  rewrite Q', Q. destruct x as [x1 x2], y as [y1 y2]. split; cbn; ring.
+Qed.
